@@ -531,6 +531,36 @@ theorem conservation_literal_false :
   simp only [totalLedger, plainOps, histLedger, runHist_cons, runHist_nil, h1, h2, h3]
   decide
 
+/-! ## why the predicate carries the column shape: `move_entity` logs before it checks the row -/
+
+/-- a world whose archetype 1 has a column with one cell (serial 5, component index 0 of type K1) but NO row -/
+def badW : World :=
+  { comps := { slots := [⟨1, U32MAX, some { ty := 1, id := ⟨0, 1⟩ }⟩], nextFree := U32MAX, len := 1 }
+    archs := { entries := [.occ { index := 0, comps := [], cols := [], ids := [] },
+                           .occ { index := 1, comps := [0], cols := [[⟨7, 5⟩]], ids := [] }], next := 2 }
+    nextCSerial := 6 }
+
+/-- **without `ColsOk` the counting half is not kept** (kernel-checked): in a world whose archetype 1 has a column with a
+    cell but no row — every archetype at its own index, no serial twice — `moveEntity` passes the cell to its
+    destructor (serial `5` is logged), THEN finds no entity id in the row and panics (`swap_remove index out of bounds`)
+    with the cell still in the column: serial `5` is stored and destroyed.  `ColsOk` (no column is longer than
+    `entity_ids`) rules this out; it is part of `CL` and kept by every model function. -/
+theorem moveEntity_needs_colsOk :
+    (∀ i a, badW.archs.get i = some a → a.index = i) ∧
+    (storedSers badW.archs ++ queuedSers badW.queue ++ dropSers badW.cdrops).Nodup ∧
+    (fun (r : Except Err Unit × World) =>
+        ((match r.1 with | .error (.panic _) => true | _ => false), storedSers r.2.archs, dropSers r.2.cdrops))
+      ((moveEntity ⟨1, 0⟩ 0 []).run.run badW) = (true, [5], [5]) := by
+  refine ⟨?_, by decide, ?_⟩
+  · intro i a h
+    rw [Slab.get_eq_some_iff] at h
+    match i, h with
+    | 0, h => cases h; rfl
+    | 1, h => cases h; rfl
+  · unfold moveEntity
+    rw [moveCols_eq_fuel]
+    decide
+
 end C12History
 end Evenio
 
@@ -547,3 +577,4 @@ end Evenio
 #print axioms Evenio.C12History.demo_instance
 #print axioms Evenio.C12History.conservation_literal_false
 #print axioms Evenio.C12History.stepClean_of_reachable
+#print axioms Evenio.C12History.moveEntity_needs_colsOk
